@@ -93,13 +93,17 @@ var keywords = []string{"TABLE", "WORKSPACE", "ABSTRACT", "INHERITS", "VIEW", "P
 
 // mutateText applies 1..3 token-level edits to one file of the program
 func mutateText(r *kit.Rng, prog []c17.PkgText, donors []string) ([]c17.PkgText, string) {
+	pi := r.Intn(len(prog))
+	if len(prog) > 1 && r.Chance(3, 4) {
+		pi = 1 + r.Intn(len(prog)-1) // mostly the application packages, sometimes sys
+	}
+	return mutateTextAt(r, prog, pi, donors)
+}
+
+func mutateTextAt(r *kit.Rng, prog []c17.PkgText, pi int, donors []string) ([]c17.PkgText, string) {
 	res := make([]c17.PkgText, len(prog))
 	for i, p := range prog {
 		res[i] = c17.PkgText{Path: p.Path, Files: append([]string{}, p.Files...)}
-	}
-	pi := r.Intn(len(res))
-	if len(res) > 1 && r.Chance(3, 4) {
-		pi = 1 + r.Intn(len(res)-1) // mostly the application packages, sometimes sys
 	}
 	fi := r.Intn(len(res[pi].Files))
 	toks := tokenize(res[pi].Files[fi])
